@@ -101,6 +101,47 @@ pub fn trees_of_size(size: usize) -> Vec<T> {
     }
     out
 }
+/// All *flow-only* trees with exactly `size` nodes over the leaves {a, null}: a cheaper
+/// space than `trees_of_size` that reaches deeper flow nesting (single-pair mappings whose value is
+/// a multi-entry flow mapping, ...).
+pub fn flow_trees_of_size(size: usize) -> Vec<T> {
+    let mut out = vec![];
+    if size == 1 {
+        out.push(T::plain(N::Sc("a".into(), 0)));
+        out.push(T::plain(N::Null));
+        return out;
+    }
+    fn prod(parts: &[usize]) -> Vec<Vec<T>> {
+        if parts.is_empty() {
+            return vec![vec![]];
+        }
+        let heads = flow_trees_of_size(parts[0]);
+        let tails = prod(&parts[1..]);
+        let mut out = vec![];
+        for h in &heads {
+            for t in &tails {
+                let mut v = vec![h.clone()];
+                v.extend(t.iter().cloned());
+                out.push(v);
+            }
+        }
+        out
+    }
+    for parts in compositions(size - 1) {
+        for kids in prod(&parts) {
+            out.push(T::plain(N::Seq(kids.clone(), true)));
+            if parts.len() % 2 == 0 {
+                let pairs: Vec<(T, T)> = kids.chunks(2).map(|c| (c[0].clone(), c[1].clone())).collect();
+                out.push(T::plain(N::Map(pairs, true)));
+            }
+        }
+    }
+    out
+}
+pub fn all_flow_trees(min_size: usize, max_size: usize) -> Vec<T> {
+    (min_size..=max_size).flat_map(flow_trees_of_size).filter(|t| renderable(t, false)).collect()
+}
+
 fn flow_only(t: &T) -> bool {
     match &t.n {
         N::Seq(k, f) => *f && k.iter().all(flow_only),
@@ -476,8 +517,21 @@ impl<'a> R<'a> {
         let json_like_key = matches!(x.n, N::Sc(_, 1 | 2) | N::Seq(..) | N::Map(..));
         if matches!(x.n, N::Alias(_)) || (matches!(x.n, N::Null) && !key_empty) || (key_empty && explicit) {
             self.space();
-        } else if !key_empty && self.ch.flag() {
-            self.out.push(' ');
+        } else if !key_empty {
+            // separation between the key and ':': nothing, a space, or (in a flow mapping, outside
+            // one-line mode) a line break
+            let k = if !in_seq && self.oneline == 0 { self.ch.pick(3) } else { self.ch.pick(2) };
+            match k {
+                1 => self.out.push(' '),
+                2 => {
+                    self.out.push('\n');
+                    let extra = self.ch.pick(2);
+                    for _ in 0..(n + 1).max(0) as usize + extra {
+                        self.out.push(' ');
+                    }
+                }
+                _ => {}
+            }
         }
         self.out.push(':');
         if !val_empty {
